@@ -223,7 +223,9 @@ eng_mix(void)
                                         uint32_t n = l->it->inplace ? l->it->buf_len : l->it->dst_len;
                                         if (l->it->cipher != IMB_CIPHER_NULL && n && memcmp(a, b, n))
                                                 bad = 2;
-                                        if (l->it->tag_len && memcmp(l->it->tag, twin->tag, l->it->tag_len))
+                                        /* PON with PLI <= 4: the CRC half of the tag is not specified (stale register on SSE/AVX) */
+                                        uint32_t tn = (l->it->cipher == IMB_CIPHER_PON_AES_CNTR && !l->it->pon_crc_defined) ? 4 : l->it->tag_len;
+                                        if (l->it->tag_len && memcmp(l->it->tag, twin->tag, tn))
                                                 bad = 3;
                                 }
                                 if (bad) {
